@@ -164,6 +164,11 @@ def gen_temporal(rng):
 
 
 def fixed_cases():
+    # the hypergraph of the Lean theorem `C09_adjacency_wraps_witness` (lean/Hgxv/Proofs/C09Witness.lean)
+    wn = [3, 5, 8, 10, 11, 20, 21, 22, 30, 40]
+    we = [[3, 5] + [wn[2 + b] for b in range(8) if mask >> b & 1] for mask in range(256)]
+    yield {"kind": "static", "labels": "int", "pre_nodes": [], "nodes": wn, "edges": we, "weighted": False,
+           "weights": ["1"] * 256, "profile": "adjacency-only", "fixed": "256 hyperedges share two nodes (Lean witness)"}
     base = [100 + 7 * i for i in range(11)]
     rest = base[2:]
     edges = []
